@@ -271,6 +271,12 @@ def main(argv):
     pid, tier = argv[0].upper(), (argv[1] if len(argv) > 1 else os.environ.get('VERIF_TIER', 'quick'))
     seed = int(os.environ.get('VERIF_SEED', '0') or 0)
     t0 = time.time()
+    if tier == 'thorough' and not os.environ.get('SX_SKIP_SELFTEST'):
+        # encoding validation a, b, d (DESIGN 2.7) before a thorough run
+        from . import selftest
+        if selftest.main(['fast']) != 0:
+            print('HARNESS-ERROR property=%s the self-test of the machinery failed; no verdict' % pid)
+            return 3
     hmod = harness_module(pid)
     shapes = hmod.shapes(tier, seed)
     only = os.environ.get('SX_ONLY')
